@@ -409,7 +409,7 @@ Section CLONE_THM.
     pose proof (winv_job_nn frepr wss f0 ws i HW Hws Hi c0 v0 G J) as Hnn.
     pose proof HW as [Hnd [Hnil [Hcl [Hlen Hv]]]].
     split; [apply (Hv dws Hdwsin)|]. split; [apply Hlen; auto|]. split; [exact Hcl|].
-    exists c0, v0. repeat split; auto. rewrite sp_value_dir. fold src. rewrite G. exact J.
+    exists c0, v0. repeat split; auto. rewrite sp_value_dir, G. exact J.
   Qed.
 
   Lemma cl_dst_dir : dst_dir frepr o f0 = dst.
@@ -459,24 +459,26 @@ Section CLONE_THM.
       intro atomic. destruct cl_facts as [Hdws [Hlen [Hcl _]]].
       unfold op_prog, o, job_clone, with_sp, sp_load.
       replace (ws ++ [i; SPF]) with (src ++ [SPF]) by (unfold src; rewrite <- app_assoc; reflexivity).
-      assert (HK : forall r : fres bool, safeK (CI f0 dws i c0)
+      assert (Hclean : forall (rs : fres val) e, safeK (CI f0 dws i c0)
+                (if exists_r rs then ret_res (inr e) else rmtree_ign 6 dst (ret_res (inr e)))).
+      { intros rs e. destruct (exists_r rs); [apply safe_raise|].
+        apply (safe_rmtree_ign f0 dws i c0); [apply under_refl|apply safe_raise]. }
+      assert (HK : forall (rs : fres val) (r : fres bool), safeK (CI f0 dws i c0)
                 (match r with
                  | FOk false => ret_res (inl tt)
-                 | FOk true => rmtree_ign 6 dst (ret_res (inr (POs EIO)))
+                 | FOk true => if exists_r rs then ret_res (inr (POs EIO)) else rmtree_ign 6 dst (ret_res (inr (POs EIO)))
                  | FErr EEXIST => ret_res (inr (PExn EDestinationExists))
                  | FErr ENOENT => ret_res (inr (PExn EValueError))
-                 | FErr e => rmtree_ign 6 dst (ret_res (inr (POs e)))
+                 | FErr e => if exists_r rs then ret_res (inr (POs e)) else rmtree_ign 6 dst (ret_res (inr (POs e)))
                  end)).
-      { intros [[|]|e].
-        - apply (safe_rmtree_ign f0 dws i c0); [apply under_refl|apply safe_raise].
-        - apply safe_ret.
-        - destruct e; try apply safe_raise; (apply (safe_rmtree_ign f0 dws i c0); [apply under_refl|apply safe_raise]). }
+      { intros rs [[|]|e]; [apply Hclean|apply safe_ret|]. destruct e; try apply safe_raise; apply Hclean. }
       apply safe_pure; [reflexivity| |].
       - intros f Hf. assert (Gf : get f (src ++ [SPF]) = Some (File c0)).
-        { destruct Hf as [H1 _]. rewrite (H1 _ (src_not_under_dst ws dws i Hlen Hdiff [SPF])). exact G. }
+        { destruct Hf as [H1 _]. unfold src. rewrite (H1 _ (src_not_under_dst ws dws i Hlen Hdiff [SPF])). exact G. }
         unfold exec_res. cbn [exec]. rewrite Gf. cbn [snd]. rewrite J, Hnn, E, str_eqb_refl.
-        fold src dst. rewrite <- (app_nil_r src), <- (app_nil_r dst).
-        apply (safe_copytree f0 ws dws i c0 Hlen Hdiff Hdws G Hcl); [exact I|]. exact HK.
+        fold src dst. apply safe_pure_all; [reflexivity|]. intro rs. cbv zeta.
+        rewrite <- (app_nil_r src), <- (app_nil_r dst) at 1.
+        apply (safe_copytree f0 ws dws i c0 Hlen Hdiff Hdws G Hcl); [exact I|]. apply (HK rs).
       - intro e. destruct e; apply safe_raise.
     Qed.
 
@@ -495,7 +497,7 @@ Section CLONE_THM.
         rewrite validates_dir, <- Ed in Hval. rewrite sp_value_dir, <- Ed.
         destruct H3 as [Hn|[c [Hc Hj]]]; [rewrite Hn in Hval; discriminate|].
         rewrite Hc in *. destruct Hj as [Hj|Hj]; [rewrite Hj in Hval; discriminate|]. subst c.
-        rewrite sp_value_dir in Hv1. fold src in Hv1. rewrite G, J in Hv1. injection Hv1 as <-.
+        rewrite sp_value_dir in Hv1. change (ws ++ [i]) with src in Hv1. rewrite G, J in Hv1. injection Hv1 as <-.
         exists v0. split; auto. simpl. rewrite json_same_refl. reflexivity.
     Qed.
   End FRESH.
@@ -506,7 +508,157 @@ Section CLONE_THM.
   Proof.
     intros atomic g Hdiff Hfresh Hg.
     destruct cl_facts as [_ [_ [_ [c0 [v0 [G [J [E [Hnn _]]]]]]]]].
-    apply (cinv_of_CI Hdiff Hfresh c0 v0 G J).
-    apply (clone_safe Hdiff Hfresh c0 v0 G J E Hnn atomic f0 g); [apply ci_start; auto|exact Hg].
+    eapply cinv_of_CI; eauto.
+    eapply (clone_safe); eauto. eapply ci_start; eauto.
   Qed.
 End CLONE_THM.
+
+(* ------------------------------------------------------------------ the destination exists: nothing is touched *)
+Section EXISTS.
+  Variable f0 : fs.
+  Hypothesis Hcl : forall p, get f0 p <> None -> get f0 (parent p) = Some Dir.
+  Context {A : Type}.
+
+  Definition Inv0 (g : fs) : Prop := g = f0.
+
+  Lemma mk0 : forall g p, Inv0 g -> get f0 p <> None -> exec_res g (CMkdir p) = (g, FErr EEXIST).
+  Proof.
+    intros g p Hi Hex. unfold Inv0 in Hi. subst g. unfold exec_res. cbn [exec]. unfold mkdir.
+    destruct (get f0 p); [reflexivity|contradiction].
+  Qed.
+
+  Lemma safe_mk_all0 : forall fuel ok p (k : fres unit -> prog A),
+    get f0 p <> None -> (forall r, safeK Inv0 (k r)) -> safeK Inv0 (makedirs_p fuel ok p k).
+  Proof.
+    induction fuel as [|fuel IH]; intros ok p k Hex Hk.
+    - simpl. apply safe_do; [reflexivity| |].
+      + intros f Hi. rewrite (mk0 f p Hi Hex). cbn [fst snd]. split; auto.
+        destruct ok; [|apply Hk]. apply safe_pure_all; [reflexivity|]. intro r2. destruct (is_dir_r r2); apply Hk.
+      + intro e. destruct ok; [|apply Hk]. apply safe_pure_all; [reflexivity|]. intro r2. destruct (is_dir_r r2); apply Hk.
+    - rewrite makedirs_p_unfold. cbv zeta.
+      assert (Hleaf : safeK Inv0 (Do (CMkdir p) (fun r =>
+                match r with
+                | FOk _ => k (FOk tt)
+                | FErr e => if ok then Do (CStat p) (fun r2 => if is_dir_r r2 then k (FOk tt) else k (FErr e))
+                            else k (FErr e)
+                end))).
+      { apply safe_do; [reflexivity| |].
+        - intros f Hi. rewrite (mk0 f p Hi Hex). cbn [fst snd]. split; auto.
+          destruct ok; [|apply Hk]. apply safe_pure_all; [reflexivity|]. intro r2. destruct (is_dir_r r2); apply Hk.
+        - intro e. destruct ok; [|apply Hk]. apply safe_pure_all; [reflexivity|]. intro r2. destruct (is_dir_r r2); apply Hk. }
+      destruct (parent p) as [|a [|b l]] eqn:Ep; auto.
+      apply safe_pure_all; [reflexivity|]. intro rh. destruct (exists_r rh); auto.
+      rewrite <- Ep. apply IH; [rewrite (Hcl p Hex); discriminate|].
+      intros [u|e]; auto. destruct e; auto.
+  Qed.
+
+  (* makedirs(exist_ok=False) on an existing path only ever reports an error *)
+  Lemma safe_mk_err0 : forall fuel p (k : fres unit -> prog A),
+    get f0 p <> None -> (forall e, safeK Inv0 (k (FErr e))) -> safeK Inv0 (makedirs_p fuel false p k).
+  Proof.
+    intros fuel p k Hex Hk.
+    assert (Hleaf : safeK Inv0 (Do (CMkdir p) (fun r =>
+              match r with
+              | FOk _ => k (FOk tt)
+              | FErr e => if false then Do (CStat p) (fun r2 => if is_dir_r r2 then k (FOk tt) else k (FErr e))
+                          else k (FErr e)
+              end))).
+    { apply safe_do; [reflexivity| |].
+      - intros f Hi. rewrite (mk0 f p Hi Hex). cbn [fst snd]. split; auto.
+      - intro e. apply Hk. }
+    destruct fuel as [|fuel]; [exact Hleaf|].
+    rewrite makedirs_p_unfold. cbv zeta.
+    destruct (parent p) as [|a [|b l]] eqn:Ep; auto.
+    apply safe_pure_all; [reflexivity|]. intro rh. destruct (exists_r rh); auto.
+    rewrite <- Ep. apply safe_mk_all0; [rewrite (Hcl p Hex); discriminate|].
+    intros [u|e]; auto. destruct e; auto.
+  Qed.
+
+  Lemma safe_copytree_exists : forall fuel src dst (k : fres bool -> prog A),
+    get f0 dst <> None -> (forall e, safeK Inv0 (k (FErr e))) -> safeK Inv0 (copytree_p fuel src dst k).
+  Proof.
+    intros fuel src dst k Hex Hk. destruct fuel; cbn [copytree_p];
+      (apply safe_pure_all; [reflexivity|]; intros [v|e]; [|apply Hk]; destruct v; try apply Hk;
+       apply safe_mk_err0; auto).
+  Qed.
+End EXISTS.
+
+
+(* ------------------------------------------------------------------ statements used in props/C11.v *)
+Lemma crashed_pure_inv : forall A c (k : fres val -> prog A) f g, pure_call c = true ->
+  crashed (Do c k) f g -> g = f \/ crashed (k (snd (exec_res f c))) f g.
+Proof.
+  intros A c k f g Hp H. apply crashed_do_inv in H; [|apply pure_not_write; auto].
+  rewrite (pure_fst f c Hp) in H. exact H.
+Qed.
+
+Lemma clone_exists_tail : forall (frepr : fl -> str) f0 (ws dws : path) (i : str) (rs : fres val),
+  (forall p, get f0 p <> None -> get f0 (parent p) = Some Dir) ->
+  get f0 (dws ++ [i]) <> None -> exists_r rs = true ->
+  safeK (Inv0 f0)
+    (copytree_p 6 (ws ++ [i]) (dws ++ [i]) (fun r =>
+       match r with
+       | FOk false => ret_res (inl tt)
+       | FOk true => if exists_r rs then ret_res (inr (POs EIO)) else rmtree_ign 6 (dws ++ [i]) (ret_res (inr (POs EIO)))
+       | FErr EEXIST => ret_res (inr (PExn EDestinationExists))
+       | FErr ENOENT => ret_res (inr (PExn EValueError))
+       | FErr e => if exists_r rs then ret_res (inr (POs e)) else rmtree_ign 6 (dws ++ [i]) (ret_res (inr (POs e)))
+       end)).
+Proof.
+  intros frepr f0 ws dws i rs Hcl Hex Hrs. apply safe_copytree_exists; auto.
+  intro e. rewrite Hrs. destruct e; apply safe_raise.
+Qed.
+
+Theorem crash_safe_clone_thm : forall frepr wss f0 ws dws i atomic g,
+  WInv frepr wss f0 -> In ws wss -> In dws wss -> In i (job_dirs f0 ws) ->
+  crash_states (op_prog frepr atomic (KClone ws i dws)) f0 g ->
+  CInv frepr (KClone ws i dws) wss f0 g.
+Proof.
+  intros frepr wss f0 ws dws i atomic g HW Hws Hdwsin Hi H.
+  destruct (cl_facts frepr wss f0 ws dws i HW Hws Hdwsin Hi) as [Hdws [Hlen [Hcl [c0 [v0 [G [J [E [Hnn Hs]]]]]]]]].
+  destruct (get f0 (dws ++ [i])) as [nd|] eqn:Gd.
+  - (* the destination exists: DestinationExistsError, nothing is touched *)
+    assert (Hg : g = f0).
+    { unfold crash_states, op_prog, job_clone, with_sp, sp_load in H.
+      replace (ws ++ [i; SPF]) with ((ws ++ [i]) ++ [SPF]) in H by (rewrite <- app_assoc; reflexivity).
+      apply crashed_pure_inv in H; [|reflexivity]. destruct H as [->|H]; auto.
+      assert (E0 : exec_res f0 (CRead ((ws ++ [i]) ++ [SPF])) = (f0, FOk (RData c0))) by (unfold exec_res; cbn [exec]; rewrite G; reflexivity).
+      rewrite E0 in H. cbn [snd] in H. rewrite J, Hnn, E, str_eqb_refl in H.
+      apply crashed_pure_inv in H; [|reflexivity]. destruct H as [->|H]; auto.
+      rewrite exec_res_stat, Gd in H. cbn [snd] in H. cbv zeta in H.
+      apply crashed_gcrashed in H.
+      refine (clone_exists_tail frepr f0 ws dws i _ Hcl _ _ f0 g eq_refl H); [congruence|destruct nd; reflexivity]. }
+    subst g. apply (cinv_clone_pre frepr wss f0 ws dws i HW Hws Hdwsin Hi).
+  - assert (Hdiff : ws <> dws).
+    { intro Eq. subst dws. destruct (winv_job frepr wss f0 ws i HW Hws Hi) as [Hsd _]. congruence. }
+    apply (clone_fresh_all frepr wss f0 ws dws i HW Hws Hdwsin Hi atomic g Hdiff Gd).
+    apply crashed_gcrashed. exact H.
+Qed.
+
+(* every fault plan: with a fresh destination CInv holds whatever fails (copy steps, clean-up steps, stats);
+   with an existing destination nothing is touched, provided the lexists() of the destination itself is not
+   among the failing calls (position 1; os.path.lexists reads any error as "not there") *)
+Theorem fault_safe_clone_thm : forall frepr wss f0 ws dws i atomic plan,
+  WInv frepr wss f0 -> In ws wss -> In dws wss -> In i (job_dirs f0 ws) ->
+  get f0 (dws ++ [i]) = None \/ plan 1%nat = None ->
+  CInv frepr (KClone ws i dws) wss f0 (fst (run_fault plan 0 (op_prog frepr atomic (KClone ws i dws)) f0)).
+Proof.
+  intros frepr wss f0 ws dws i atomic plan HW Hws Hdwsin Hi Hcase.
+  destruct (cl_facts frepr wss f0 ws dws i HW Hws Hdwsin Hi) as [Hdws [Hlen [Hcl [c0 [v0 [G [J [E [Hnn Hs]]]]]]]]].
+  destruct (get f0 (dws ++ [i])) as [nd|] eqn:Gd.
+  - destruct Hcase as [Hc|Hp1]; [discriminate|].
+    assert (Hg : fst (run_fault plan 0 (op_prog frepr atomic (KClone ws i dws)) f0) = f0).
+    { unfold op_prog, job_clone, with_sp, sp_load.
+      replace (ws ++ [i; SPF]) with ((ws ++ [i]) ++ [SPF]) by (rewrite <- app_assoc; reflexivity).
+      rewrite run_fault_do. destruct (plan 0%nat) as [e0|].
+      - destruct e0; reflexivity.
+      - assert (E0 : exec_res f0 (CRead ((ws ++ [i]) ++ [SPF])) = (f0, FOk (RData c0))) by (unfold exec_res; cbn [exec]; rewrite G; reflexivity).
+        rewrite E0, J, Hnn, E, str_eqb_refl. rewrite run_fault_do, Hp1, exec_res_stat, Gd. cbv zeta.
+        refine (clone_exists_tail frepr f0 ws dws i _ Hcl _ _ f0 _ eq_refl (run_fault_gcrashed _ plan _ 2 f0));
+          [congruence|destruct nd; reflexivity]. }
+    rewrite Hg. apply (cinv_clone_pre frepr wss f0 ws dws i HW Hws Hdwsin Hi).
+  - assert (Hdiff : ws <> dws).
+    { intro Eq. subst dws. destruct (winv_job frepr wss f0 ws i HW Hws Hi) as [Hsd _]. congruence. }
+    apply (clone_fresh_all frepr wss f0 ws dws i HW Hws Hdwsin Hi atomic _ Hdiff Gd).
+    apply run_fault_gcrashed.
+Qed.
